@@ -183,7 +183,7 @@ def tlc_judge(module, trace_path, chunk=4000, timeout=900, cfg=None, par=None):
 
     def one(c):
         off, p, n = c
-        r = tlc(module, cfg or module, workers=1, timeout=timeout, env={"TRACE": p}, deque=True, xmx="3g")
+        r = tlc(module, cfg or module, workers=1, timeout=timeout, env={"TRACE": p}, deque=True, xmx="2g")
         judged = [int(a) for k, a in r["prints"] if k == "JUDGED"]
         if r["error"] is not None or judged != [n]:
             raise ToolError("trace judge %s failed on chunk at %d: %s judged=%s\n%s" % (
@@ -198,7 +198,7 @@ def tlc_judge(module, trace_path, chunk=4000, timeout=900, cfg=None, par=None):
         return n, bad, div, r["distinct"], r["generated"]
 
     try:
-        with ThreadPoolExecutor(max_workers=par or max(1, NCPU // 2)) as ex:
+        with ThreadPoolExecutor(max_workers=par or 4) as ex:
             res = list(ex.map(one, chunks))
     finally:
         shutil.rmtree(tmpd, ignore_errors=True)
